@@ -512,5 +512,5 @@ def _has_x(v):
     return any(a[1][0] == 'app' and a[1][1] == 'X' for a in v.terms)
 
 
-def load(files, top):
-    return Design(verilator_xml(files, top))
+def load(files, top, defines=()):
+    return Design(verilator_xml(files, top, defines))
